@@ -4,7 +4,7 @@ import z3
 from . import ty as T
 from .core import *  # noqa
 from .core import V, Exc, Cell, Event, Obligation, DottedName, BoundMethod, Closure, Sentinel
-from .interp import Run, Frame, Iter, zsimp, is_true, is_false, NUMERIC, nth
+from .interp import Run, Frame, Iter, zsimp, is_true, is_false, NUMERIC, nth, has_quant
 
 
 def kindp(*kinds):
@@ -113,7 +113,10 @@ class Evaluator(Run):
                 sv = self.ev(e.value, frame)
                 vals.append(("*", sv))
             else:
-                vals.append(("1", self.data(self.ev(e, frame))))
+                ev_ = self.ev(e, frame)
+                if ev_.t.kind == "union" and not self.pure:
+                    ev_ = self.narrow(ev_)
+                vals.append(("1", self.data(ev_)))
         hint = self.ctx.type_hint(node)
         elem = hint.elem if hint is not None else None
         if elem is None:
@@ -141,6 +144,23 @@ class Evaluator(Run):
             else:
                 s = z3.Concat(s, self.coerce(self.as_seq(v), T.Seq(elem)).z)
         return self.alloc(lt, V(lt.content(), s))
+
+    def ev_Set(self, node, frame):
+        vals = [self.data(self.ev(e, frame)) for e in node.elts]
+        hint = self.ctx.type_hint(node)
+        et = hint.elem if hint is not None and hint.kind == "set" else vals[0].t
+        if et.kind == "union" and all(v.t == vals[0].t for v in vals) and vals[0].t.kind != "union":
+            et = vals[0].t
+        if vals[0].t.kind == "union":
+            # a word that may be a string: sets under contract are sets of strings
+            nn = [m for m in vals[0].t.members if m.kind == "str"]
+            if nn:
+                et = nn[0]
+        st = T.VSet(et)
+        z = z3.K(et.sort(), z3.BoolVal(False))
+        for v in vals:
+            z = z3.Store(z, self.coerce(v, et).z, z3.BoolVal(True))
+        return V(st, z)
 
     def ev_Dict(self, node, frame):
         from . import models
@@ -193,7 +213,21 @@ class Evaluator(Run):
     def ev_BoolOp(self, node, frame):
         is_and = isinstance(node.op, ast.And)
         if self.pure:
-            vals = [self.ev(x, frame) for x in node.values]
+            vals = []
+            for x in node.values:
+                v = self.ev(x, frame)
+                vals.append(v)
+                if v.t.kind == "bool":
+                    zs = zsimp(v.z)
+                    # short-circuit on a literally decided operand (guards partial sub-clauses)
+                    if (z3.is_false(zs) and is_and) or (z3.is_true(zs) and not is_and):
+                        return mk_bool(not is_and)
+                    if x is not node.values[-1] and not has_quant(zs):
+                        # decided by the path condition: the remaining operands may be partial here
+                        if is_and and not self.feasible(zs):
+                            return mk_bool(False)
+                        if not is_and and not self.feasible(z3.Not(zs)):
+                            return mk_bool(True)
             if all(v.t.kind == "bool" for v in vals):
                 return mk_bool((z3.And if is_and else z3.Or)([v.z for v in vals]))
             res = vals[-1]
@@ -222,6 +256,13 @@ class Evaluator(Run):
         if len(feas) == 1:
             m = feas[0]
             return mk_none() if m.kind == "none" else V(m, v.t.proj(v.z, m))
+        if 1 < len(feas) < len(v.t.members):
+            u = T.Union(*feas)
+            res = None
+            for m in reversed(feas):
+                inj = u.inject(m, v.t.proj(v.z, m))
+                res = inj if res is None else z3.If(v.t.is_(v.z, m), inj, res)
+            return V(u, res)
         return v
 
     def ev_IfExp(self, node, frame):
@@ -331,7 +372,14 @@ class Evaluator(Run):
                 if sa_t is None and sb_t is None:
                     return self.alloc(T.List(PENDING), None) if not self.pure else a
                 st = sa_t or sb_t
-                za = self.as_seq(a).z if sa_t is not None else z3.Empty(st.sort())
+                if sa_t is not None and sb_t is not None and sa_t.elem != sb_t.elem:
+                    if self.can_inject(sb_t.elem, sa_t.elem):
+                        st = sa_t
+                    elif self.can_inject(sa_t.elem, sb_t.elem):
+                        st = T.Seq(sb_t.elem, py=sa_t.py)
+                    else:
+                        st = T.Seq(T.Union(sa_t.elem, sb_t.elem), py=sa_t.py)
+                za = self.coerce(self.as_seq(a), st).z if sa_t is not None else z3.Empty(st.sort())
                 zb = self.coerce(self.as_seq(b), st).z if sb_t is not None else z3.Empty(st.sort())
                 res = V(st, z3.Concat(za, zb))
                 if (ka == "list" or kb == "list") and not self.pure:
@@ -348,7 +396,16 @@ class Evaluator(Run):
             sa = self.content(a) if ka == "set" else a
             sb = self.content(b) if kb == "set" else b
             if isinstance(op, ast.BitOr):
-                z = z3.Map(z3.Or(z3.BoolVal(True), z3.BoolVal(True)).decl(), sa.z, sb.z)
+                z = None
+                for base_, other in ((sa.z, sb.z), (sb.z, sa.z)):
+                    keys = _finite_set_keys(other)
+                    if keys is not None:
+                        z = base_
+                        for kx in keys:
+                            z = z3.Store(z, kx, z3.BoolVal(True))
+                        break
+                if z is None:
+                    z = z3.Map(z3.Or(z3.BoolVal(True), z3.BoolVal(True)).decl(), sa.z, sb.z)
             elif isinstance(op, ast.BitAnd):
                 z = z3.Map(z3.And(z3.BoolVal(True), z3.BoolVal(True)).decl(), sa.z, sb.z)
             elif isinstance(op, ast.Sub):
@@ -356,9 +413,9 @@ class Evaluator(Run):
             else:
                 raise Unsupported("set op")
             res = V(sa.t, z)
-            if not self.pure:
+            if not self.pure and (ka == "set" or kb == "set"):
                 return self.alloc(T.Set(sa.t.elem), res)
-            return res
+            return res  # frozenset values
         if ka not in NUMERIC or kb not in NUMERIC:
             if self.pure:
                 raise EngineError("spec: binop on %s, %s" % (a.t, b.t))
@@ -397,7 +454,11 @@ class Evaluator(Run):
         lab = self.lab(node, "idx")
         heap = self.old_heap
         if base.t.kind == "union":
-            base = self.project(base, lambda t: t.kind != "none", lab)
+            subs = ("seq", "list", "str", "tuple", "bytes", "dict", "vmap", "rec", "drec", "itemref")
+            if any(m.kind in subs for m in base.t.members):
+                base = self.project(base, lambda t: t.kind in subs, lab)
+            else:
+                base = self.project(base, lambda t: t.kind != "none", lab)
         if isinstance(sl, ast.Slice):
             if sl.step is not None:
                 st = self.ev(sl.step, frame)
@@ -490,7 +551,7 @@ class Evaluator(Run):
                 return Iter(z3.IntVal(len(items)), None, concrete=items)
             raise Unsupported("iteration over %r" % (o,))
         if k == "union":
-            v = self.project(v, lambda t: t.kind != "none", self.lab(node, "iter"))
+            v = self.project(v, lambda t: t.kind in ("seq", "list", "str", "tuple", "bytes", "set", "vset", "dict", "vmap"), self.lab(node, "iter"))
             k = v.t.kind
         if k == "tuple":
             items = [V(t, v.t.get(v.z, i)) for i, t in enumerate(v.t.items)]
@@ -715,18 +776,21 @@ class Evaluator(Run):
 
     def special_implies(self, node, frame):
         a = self.truthy(self.ev(node.args[0], frame))
+        if z3.is_false(zsimp(a)) or (not has_quant(a) and not self.feasible(a)):
+            return mk_bool(True)  # lazy: the consequent may be partial where the antecedent is false
         b = self.truthy(self.ev(node.args[1], frame))
         return mk_bool(z3.Implies(a, b))
 
-    def _quant(self, node, frame, forall):
+    def _quant(self, node, frame, forall, ty=None):
         lam = node.args[0]
         if not isinstance(lam, ast.Lambda):
             raise EngineError("forall/exists needs a lambda")
         names = [a.arg for a in lam.args.args]
-        vars_ = [z3.Int(fresh_name(n)) for n in names]
+        ty = ty or T.Int
+        vars_ = [z3.Const(fresh_name(n), ty.sort()) for n in names]
         env = dict(self.spec_env or {})
         for n, v in zip(names, vars_):
-            env[n] = mk_int(v)
+            env[n] = V(ty, v)
         saved = self.spec_env
         self.spec_env = env
         try:
@@ -745,6 +809,15 @@ class Evaluator(Run):
 
     def special_forall(self, node, frame):
         return self._quant(node, frame, True)
+
+    def special_forall_str(self, node, frame):
+        return self._quant(node, frame, True, T.Str)
+
+    def special_exists_str(self, node, frame):
+        return self._quant(node, frame, False, T.Str)
+
+    def special_forall_strset(self, node, frame):
+        return self._quant(node, frame, True, T.VSet(T.Str))
 
     def special_exists(self, node, frame):
         return self._quant(node, frame, False)
@@ -840,6 +913,11 @@ class Evaluator(Run):
         if not (isinstance(an, ast.Constant) and isinstance(an.value, str)):
             raise Unsupported("hasattr with non-literal name")
         name = an.value
+        if name == "__len__" and not obj.is_const and obj.t.kind != "obj":
+            sized = ("str", "seq", "list", "tuple", "dict", "set", "vset", "vmap", "bytes")
+            if obj.t.kind == "union":
+                return mk_bool(z3.Or([obj.t.is_(obj.z, m) for m in obj.t.members if m.kind in sized] or [z3.BoolVal(False)]))
+            return mk_bool(obj.t.kind in sized)
         if obj.t.kind == "obj":
             cell = self.cell(obj)
             miss = cell.content.get("__missing_" + name)
@@ -873,7 +951,26 @@ class Evaluator(Run):
         if isinstance(target, (ast.Tuple, ast.List)):
             n = len(target.elts)
             if any(isinstance(e, ast.Starred) for e in target.elts):
-                raise Unsupported("starred assignment target")
+                if not (n == 2 and isinstance(target.elts[1], ast.Starred) and not isinstance(target.elts[0], ast.Starred)):
+                    raise Unsupported("starred assignment target other than `a, *b`")
+                it = self.iter_of(val, target)
+                if it.concrete is not None:
+                    if not it.concrete:
+                        raise PyRaise(Exc("ValueError", tag=self.lab(target, "unpack")))
+                    self.assign(target.elts[0], it.concrete[0], frame)
+                    rest = it.concrete[1:]
+                    self.assign(target.elts[1].value, self.new_list(rest[0].t if rest else PENDING, rest) if rest else self.alloc(T.List(PENDING), None), frame)
+                    return
+                self.fail_if(it.n < 1, "ValueError", self.lab(target, "unpack"))
+                first = it.at(z3.IntVal(0))
+                self.assign(target.elts[0], first, frame)
+                st = T.Seq(first.t)
+                res = z3.Const(fresh_name("rest"), st.sort())
+                kk = z3.Int(fresh_name("k"))
+                self.assume(z3.Length(res) == it.n - 1)
+                self.assume(z3.ForAll([kk], z3.Implies(z3.And(0 <= kk, kk < it.n - 1), res[kk] == it.at(kk + 1).z), patterns=[res[kk]]))
+                self.assign(target.elts[1].value, self.list_from_seq(V(st, res)), frame)
+                return
             items = self.unpack(val, n, self.lab(target, "unpack"))
             for e, it in zip(target.elts, items):
                 self.assign(e, it, frame)
@@ -1010,6 +1107,9 @@ class Evaluator(Run):
             else:
                 frame.env[n] = UNDEFINED
         self.ctx.note_abstract(node, ab)
+        if ab.get("may_return") is not None:
+            if self.choose([0, 1], self.lab(node, "abstract-return")) == 1:
+                raise ReturnEx(self.lift(ab["may_return"]) if ab["may_return"] != "None" else mk_none())
         if ab.get("may_raise", True):
             if self.choose([0, 1], self.lab(node, "abstract")) == 1:
                 raise PyRaise(Exc("Exception", exact=False, tag="abstracted statement"))
@@ -1038,7 +1138,13 @@ class Evaluator(Run):
 
     def ex_AnnAssign(self, node, frame):
         if node.value is not None:
-            self.assign(node.target, self.ev(node.value, frame), frame)
+            fake = ast.Assign(targets=[node.target], value=node.value, lineno=node.lineno)
+            self.ctx.push_hint(fake)
+            try:
+                v = self.ev(node.value, frame)
+            finally:
+                self.ctx.pop_hint()
+            self.assign(node.target, v, frame)
 
     def ex_AugAssign(self, node, frame):
         t = node.target
@@ -1388,6 +1494,9 @@ class Evaluator(Run):
         extra0 = {"_i": mk_int(0), "_n": mk_int(it.n) if is_for else mk_int(0)}
         if is_for and getattr(it, "seq", None) is not None:
             extra0["_seq"] = it.seq
+        self.loop_pre = getattr(self, "loop_pre", {})
+        self.loop_pre[key] = (self.snapshot(), dict(self.ghost))
+        self.cur_loop_key = key
         # 1. invariant holds on entry
         for lbl, src in inv_items:
             g = self.truthy(self.spec_eval_in_frame(src, frame, extra0))
@@ -1412,9 +1521,6 @@ class Evaluator(Run):
                 if sl in locs and not spec.get("mutates_iterated", False):
                     raise Unsupported("loop body may mutate the list it iterates over")
         entry_epoch = self.epoch
-        self.loop_pre = getattr(self, "loop_pre", {})
-        self.loop_pre[key] = (self.snapshot(), dict(self.ghost))
-        self.cur_loop_key = key
         for loc in sorted(locs):
             self.havoc_loc(loc, "h%s" % key.replace("#", ""))
         declared = set()
@@ -1504,6 +1610,21 @@ class Evaluator(Run):
         return out
 
 
+def _finite_set_keys(z):
+    """keys of a set term written as Store(...Store(K(False), k1, True)..., kn, True), else None"""
+    keys = []
+    x = z
+    for _ in range(64):
+        if z3.is_app(x) and x.decl().kind() == z3.Z3_OP_STORE and z3.is_true(x.arg(2)):
+            keys.append(x.arg(1))
+            x = x.arg(0)
+        elif z3.is_app(x) and x.decl().kind() == z3.Z3_OP_CONST_ARRAY and z3.is_false(x.arg(0)):
+            return list(reversed(keys))
+        else:
+            return None
+    return None
+
+
 class _Undefined:
     def __repr__(self):
         return "UNDEFINED"
@@ -1555,6 +1676,20 @@ MUTATING_METHODS = {
 }
 
 
+NON_MUTATING_METHODS = {
+    "get", "keys", "values", "items", "startswith", "endswith", "find", "rfind", "index", "count", "copy", "lower",
+    "upper", "casefold", "strip", "lstrip", "rstrip", "split", "rsplit", "splitlines", "join", "format", "encode",
+    "decode", "replace", "isdigit", "isalnum", "isalpha", "isspace", "partition", "rpartition", "poll", "match",
+    "search", "group", "groups", "span", "start", "end", "time", "exists", "isdir", "isfile", "getmtime", "getsize",
+    "fullmatch", "title", "translate", "is_in_scope", "load",
+}
+PURE_BUILTINS = {
+    "len", "str", "repr", "int", "float", "bool", "isinstance", "callable", "getattr", "hasattr", "list", "tuple",
+    "set", "frozenset", "dict", "sorted", "reversed", "enumerate", "zip", "map", "filter", "range", "min", "max", "abs",
+    "sum", "any", "all", "print", "id", "type", "ord", "chr", "iter", "next",
+}
+
+
 def root_name(node):
     while isinstance(node, (ast.Attribute, ast.Subscript, ast.Call)):
         node = node.value if not isinstance(node, ast.Call) else node.func
@@ -1579,8 +1714,10 @@ def mutated_roots(stmts):
             elif isinstance(n, ast.Call):
                 if isinstance(n.func, ast.Attribute):
                     r = root_name(n.func)
-                    if r and (n.func.attr in MUTATING_METHODS or True):
+                    if r and n.func.attr not in NON_MUTATING_METHODS:
                         out.add(r)
+                if isinstance(n.func, ast.Name) and n.func.id in PURE_BUILTINS:
+                    continue
                 for a in list(n.args) + [k.value for k in n.keywords]:
                     if isinstance(a, ast.Starred):
                         a = a.value
